@@ -150,4 +150,11 @@ PROPS = {
         'trusted_base': ["Go `select` picks any ready case; channel/goroutine semantics as encoded in the step relation of SE/Model/Relay.lean", "loopback UDP delivers datagrams intact and in order", "the deterministic stream lets the sender take each line before the next operation (hook VerifPending); other schedules are covered only by the model's theorems"],
         'assumptions': [_TV_NOTE],
     },
+    'C18': {
+        'modules': [],
+        'streams': [{'component': 'frame', 'note_kinds': {'frame'}}, {'component': 'udpq'}],
+        'level': 'translation_validation',
+        'trusted_base': ["bufio.Reader.ReadLine (4096-byte buffer) modelled from the Go standard library source at the level of buffer + chunks", "the kernel delivers loopback datagrams intact and TCP bytes in order; real TCP segmentation is whatever the kernel does with the generated writes", "goroutine scheduling of reader/processor and concurrent TCP connections are not in the model (partial)"],
+        'assumptions': [_TV_NOTE],
+    },
 }
